@@ -1,4 +1,4 @@
-(* C19 - the generic lemma about guarded sites, and what an unguarded site does. *)
+(* C19 - the generic lemma about guarded sites, what an unguarded site does, and the proofs over the generated table. *)
 From Coq Require Import String List Bool NArith.
 From MV Require Import Gen.AllocSites Res.ResModel Res.ResSpec.
 Import ListNotations.
@@ -6,50 +6,51 @@ Import ListNotations.
 Lemma guarded_no_fault : forall s, guarded s = true ->
   forall orc : oracle,
     (forall k, run_site s orc <> Fault k) /\
+    run_site s orc <> SilentNull /\
     (orc = None -> run_site s orc = ErrorEdge) /\
     (orc <> None -> run_site s orc = Completed).
 Proof.
   intros s G orc. unfold run_site, site_prog, guarded in *.
-  destruct (s_class s) eqn:C; try discriminate.
-  - destruct orc; cbn; repeat split; intros; try discriminate; try reflexivity; congruence.
-  - rewrite G. destruct orc; cbn; repeat split; intros; try discriminate; try reflexivity; congruence.
-  - rewrite G. destruct orc; cbn; repeat split; intros; try discriminate; try reflexivity; congruence.
+  destruct (s_class s) eqn:C; try discriminate; try rewrite G;
+    destruct orc; cbn; repeat split; intros; try discriminate; try reflexivity; congruence.
 Qed.
 
-(* the guard is necessary: every site the table does not call guarded faults when the allocator fails *)
-Lemma unguarded_faults : forall s, guarded s = false -> exists k, run_site s None = Fault k.
+(* the guard is necessary: a site the table does not call guarded either dereferences NULL or silently stores it *)
+Lemma unguarded_not_clean : forall s, guarded s = false ->
+  (exists k, run_site s None = Fault k) \/ run_site s None = SilentNull.
 Proof.
   intros s G. unfold run_site, site_prog, guarded in *.
-  destruct (s_class s) eqn:C; try discriminate.
-  - rewrite G. eexists. reflexivity.
-  - rewrite G. eexists. reflexivity.
-  - eexists. reflexivity.
-  - eexists. reflexivity.
+  destruct (s_class s) eqn:C; try discriminate; try rewrite G;
+    try (left; eexists; reflexivity); right; reflexivity.
 Qed.
 
-(* with a successful allocator no site faults, whatever its class (the model blames only the NULL path) *)
-Lemma success_never_faults : forall s b k, run_site s (Some b) <> Fault k.
+Lemma stored_unchecked_is_silent : forall s, s_class s = StoredUnchecked -> run_site s None = SilentNull.
+Proof. intros s C. unfold run_site, site_prog. rewrite C. reflexivity. Qed.
+
+(* with a successful allocator no site misbehaves, whatever its class (the model blames only the NULL path) *)
+Lemma success_never_faults : forall s b, (forall k, run_site s (Some b) <> Fault k) /\ run_site s (Some b) <> SilentNull.
 Proof.
-  intros s b k. unfold run_site, site_prog.
-  destruct (s_class s); try destruct (s_consumers_tested s); cbn; discriminate.
+  intros s b. unfold run_site, site_prog.
+  destruct (s_class s); try destruct (s_consumers_tested s); cbn; split; intros; discriminate.
 Qed.
 
 Lemma forallb_guarded_all : forall l, forallb guarded l = true ->
   forall s, In s l -> alloc_failure_clean s.
 Proof.
   intros l H s Hin orc. rewrite forallb_forall in H. specialize (H s Hin).
-  destruct (guarded_no_fault s H orc) as (A & B & _). split; assumption.
+  destruct (guarded_no_fault s H orc) as (A & B & C & _). repeat split; assumption.
 Qed.
 
 (* the sites exempted as open findings are genuinely unclean (the exemption list carries no guarded site) *)
 Definition open_sites_unguarded (l : list site) : bool :=
   forallb (fun s => if known_open s then negb (guarded s) else true) l.
 
-Lemma open_sites_fault : forall l, open_sites_unguarded l = true ->
-  forall s, In s l -> known_open s = true -> exists k, run_site s None = Fault k.
+Lemma open_sites_unclean : forall l, open_sites_unguarded l = true ->
+  forall s, In s l -> known_open s = true ->
+  (exists k, run_site s None = Fault k) \/ run_site s None = SilentNull.
 Proof.
   intros l H s Hin Hk. unfold open_sites_unguarded in H. rewrite forallb_forall in H.
-  specialize (H s Hin). rewrite Hk in H. apply unguarded_faults.
+  specialize (H s Hin). rewrite Hk in H. apply unguarded_not_clean.
   destruct (guarded s); [discriminate | reflexivity].
 Qed.
 
@@ -67,11 +68,11 @@ Proof.
   unfold checked_sites. apply filter_In. split; [assumption | rewrite Hk; reflexivity].
 Qed.
 
-Lemma known_open_sites_fault : forall s, In s sites -> known_open s = true ->
-  exists k, run_site s None = Fault k.
-Proof. apply open_sites_fault. vm_compute. reflexivity. Qed.
+Lemma known_open_sites_unclean : forall s, In s sites -> known_open s = true ->
+  (exists k, run_site s None = Fault k) \/ run_site s None = SilentNull.
+Proof. apply open_sites_unclean. vm_compute. reflexivity. Qed.
 
-(* non-vacuity: both classes are inhabited in the model *)
+(* non-vacuity: the classes are inhabited in the model *)
 Example ex_guarded : guarded (mkSite "f.c:f#1" "f.c" "f" 1 1%N "psMalloc" "p" (GuardedBeforeUse GTest) false []) = true.
 Proof. reflexivity. Qed.
 Example ex_unguarded_faults :
@@ -79,4 +80,8 @@ Example ex_unguarded_faults :
 Proof. reflexivity. Qed.
 Example ex_guarded_error_edge :
   run_site (mkSite "f.c:f#1" "f.c" "f" 1 1%N "psMalloc" "p" (GuardedBeforeUse GInline) false []) None = ErrorEdge.
+Proof. reflexivity. Qed.
+(* `ssl->expectedName = psStrdupN(name);` followed by a success return *)
+Example ex_stored_unchecked :
+  run_site (mkSite "a.c:f@psStrdupN#1" "a.c" "f" 1 1%N "psStrdupN" "ssl->expectedName" StoredUnchecked false []) None = SilentNull.
 Proof. reflexivity. Qed.
